@@ -29,7 +29,7 @@ theorem C04_source_no_early_expiry (env : Source.Env) (s : Source.SrcSt) (t : Ti
   msimp [Source.handlePositiveAckProcedures, Source.getP, ht, hrc, hbusy]
 
 /-- an expiry below the limit: exactly one EOF PDU is re-sent (same condition code as the EOF being
-acknowledged, size = progress, checksum of the file), the counter grows by one, the timer restarts
+acknowledged, size = progress, checksum of that prefix of the file), the counter grows by one, the timer restarts
 at the current time; no fault is declared -/
 theorem C04_source_expiry_resends (env : Source.Env) (s : Source.SrcSt) (t : Timer) (rc : RemoteCfg)
     (req : Source.PutReq) (src : String) (F cks : List UInt8) (cond : Nat) (tid : Tid)
@@ -37,14 +37,14 @@ theorem C04_source_expiry_resends (env : Source.Env) (s : Source.SrcSt) (t : Tim
     (hlim : s.p.ackCounter + 1 < rc.ackLim)
     (hreq : s.putReq = some req) (hsrc : req.src = some src) (hmo : s.p.metadataOnly = false)
     (hfile : s.fs.get src = some (.file F)) (hnull : Checksum.CksType.ofNat rc.cks ≠ .null)
-    (hcks : Checksum.calcChecksum (Checksum.CksType.ofNat rc.cks) F s.p.fileSize s.p.segmentLen = .ok cks)
+    (hcks : Checksum.calcChecksum (Checksum.CksType.ofNat rc.cks) F s.p.progress s.p.segmentLen = .ok cks)
     (hlen : cks.length = 4) (hcond : s.p.condCodeEof = some cond) (htid : s.p.tid = some tid) :
     ∃ s', Source.handlePositiveAckProcedures env s = .ok () s' ∧
       s'.queue = s.queue ++ [Source.mkEof s.p.conf cond cks s.p.progress] ∧
       s'.p.ackCounter = s.p.ackCounter + 1 ∧ s'.p.ackTimer = some ⟨env.now, t.timeout⟩ ∧
       s'.flts = s.flts ∧ s'.step = s.step ∧ s'.state = s.state := by
   have hl : ¬ rc.ackLim ≤ s.p.ackCounter + 1 := by omega
-  have hc : Fs.calcChecksum s.fs (Checksum.CksType.ofNat rc.cks) src s.p.fileSize s.p.segmentLen = .ok cks := by
+  have hc : Fs.calcChecksum s.fs (Checksum.CksType.ofNat rc.cks) src s.p.progress s.p.segmentLen = .ok cks := by
     simp [Fs.calcChecksum, hnull, hfile, hcks]
   cases hi : env.cfg.indEofSent <;>
   · apply Exists.intro
@@ -461,7 +461,7 @@ theorem C04_source_expiry_resends_exact (env : Source.Env) (s : Source.SrcSt) (t
     (hlim : s.p.ackCounter + 1 < rc.ackLim)
     (hreq : s.putReq = some req) (hsrc : req.src = some src) (hmo : s.p.metadataOnly = false)
     (hfile : s.fs.get src = some (.file F)) (hnull : Checksum.CksType.ofNat rc.cks ≠ .null)
-    (hcks : Checksum.calcChecksum (Checksum.CksType.ofNat rc.cks) F s.p.fileSize s.p.segmentLen = .ok cks)
+    (hcks : Checksum.calcChecksum (Checksum.CksType.ofNat rc.cks) F s.p.progress s.p.segmentLen = .ok cks)
     (hlen : cks.length = 4) (hcond : s.p.condCodeEof = some cond) (htid : s.p.tid = some tid) :
     Source.handlePositiveAckProcedures env s =
       .ok () { s with p := bumpSrcP s.p env.now t.timeout (s.p.ackCounter + 1),
@@ -469,7 +469,7 @@ theorem C04_source_expiry_resends_exact (env : Source.Env) (s : Source.SrcSt) (t
                       numReady := s.numReady + 1,
                       inds := s.inds ++ (if env.cfg.indEofSent then [Ind.eofSent tid] else []) } := by
   have hl : ¬ rc.ackLim ≤ s.p.ackCounter + 1 := by omega
-  have hc : Fs.calcChecksum s.fs (Checksum.CksType.ofNat rc.cks) src s.p.fileSize s.p.segmentLen = .ok cks := by
+  have hc : Fs.calcChecksum s.fs (Checksum.CksType.ofNat rc.cks) src s.p.progress s.p.segmentLen = .ok cks := by
     simp [Fs.calcChecksum, hnull, hfile, hcks]
   cases hi : env.cfg.indEofSent <;>
   · msimp [Source.handlePositiveAckProcedures, Source.getP, ht, hrc, hexp, hl, Source.modP,
@@ -491,7 +491,7 @@ theorem C04_source_expiries_below_limit (cfg : LocalCfg) (rc : RemoteCfg) (req :
     ∀ (times : List Nat) (s : Source.SrcSt) (out : List Pdu) (t : Timer),
       s.p.ackTimer = some t → s.p.remoteCfg = some rc → s.putReq = some req → req.src = some src →
       s.p.metadataOnly = false → s.fs.get src = some (.file F) → Checksum.CksType.ofNat rc.cks ≠ .null →
-      Checksum.calcChecksum (Checksum.CksType.ofNat rc.cks) F s.p.fileSize s.p.segmentLen = .ok cks →
+      Checksum.calcChecksum (Checksum.CksType.ofNat rc.cks) F s.p.progress s.p.segmentLen = .ok cks →
       cks.length = 4 → s.p.condCodeEof = some cond → s.p.tid = some tid →
       s.numReady = 0 → s.queue = [] →
       Expiring t.timeout t.start times → s.p.ackCounter + times.length < rc.ackLim →
@@ -535,7 +535,7 @@ theorem C04_source_limit_exactly_at_Nth (cfg : LocalCfg) (rc : RemoteCfg) (req :
     (ht : s.p.ackTimer = some t) (hrc : s.p.remoteCfg = some rc) (hreq : s.putReq = some req)
     (hsrc : req.src = some src) (hmo : s.p.metadataOnly = false) (hfile : s.fs.get src = some (.file F))
     (hnull : Checksum.CksType.ofNat rc.cks ≠ .null)
-    (hcks : Checksum.calcChecksum (Checksum.CksType.ofNat rc.cks) F s.p.fileSize s.p.segmentLen = .ok cks)
+    (hcks : Checksum.calcChecksum (Checksum.CksType.ofNat rc.cks) F s.p.progress s.p.segmentLen = .ok cks)
     (hlen : cks.length = 4) (hcond : s.p.condCodeEof = some cond) (htid : s.p.tid = some tid)
     (hq : s.numReady = 0) (hqq : s.queue = [])
     (hexp : Expiring t.timeout t.start (times ++ [last]))
